@@ -100,6 +100,8 @@ fn main() {
         "synparse" => synparse::main(&args[2..]),
         "num" => incan_verif_kani::numreplay::main(&args[2..]),
         #[cfg(feature = "compiler")]
+        "astdump" => incan_verif_kani::tcreplay::ast_main(&args[2..]),
+        #[cfg(feature = "compiler")]
         "emitrust" => incan_verif_kani::tcreplay::emit_main(&args[2..]),
         #[cfg(feature = "compiler")]
         "typecheck" => incan_verif_kani::tcreplay::main(&args[2..]),
